@@ -83,9 +83,15 @@ const (
 	vfC16AtStart           // Close right after Dial while the writer starts
 	vfC16BackResume        // reader parked until writer and worker are blocked, then resumed; graceful Close
 	vfC16BackClose         // reader parked until writer and worker are blocked, Close, then the reader drains
+	// vfC16BackCloseUnread: the application has stopped calling Read; the
+	// worker is parked on the full read queue and (unless NoBlock) a Write is
+	// blocked on the full write queue when Close is called.  Nobody reads
+	// until the Write in progress has returned and a later Write has failed;
+	// only then are the queued data drained.
+	vfC16BackCloseUnread
 )
 
-var vfC16ModeNames = []string{"graceful", "inflight", "concurrent-write", "at-start", "backpressure-resume", "backpressure-close"}
+var vfC16ModeNames = []string{"graceful", "inflight", "concurrent-write", "at-start", "backpressure-resume", "backpressure-close", "backpressure-close-unread"}
 
 type vfC16Scn struct {
 	Idx          int
@@ -105,12 +111,14 @@ type vfC16Scn struct {
 	UpSalt       uint32
 	DownSalt     uint32
 	Ordered      bool // -race build: Close is ordered before the write it would otherwise overlap
+	Forced       bool // -race build turned a blocked-writer scenario into a NoBlock one
+	NoBlock      bool // back-pressure modes: so few writes that only the worker is parked, never the writer
 }
 
 func (s *vfC16Scn) String() string {
 	var b strings.Builder
-	fmt.Fprintf(&b, "mode=%s url=%s front=%q closeAt=%d jitter=%s idleTail=%s park=%s ordered=%v rdSizes=%v rdPause=%s/every %d upSalt=%08x downSalt=%08x\n",
-		vfC16ModeNames[s.Mode], s.URL, s.Front, s.CloseAt, s.Jitter, s.IdleTail, s.Park, s.Ordered, s.RdSizes, s.RdPause, s.RdPauseEvery, s.UpSalt, s.DownSalt)
+	fmt.Fprintf(&b, "mode=%s url=%s front=%q closeAt=%d jitter=%s idleTail=%s park=%s ordered=%v noBlock=%v rdSizes=%v rdPause=%s/every %d upSalt=%08x downSalt=%08x\n",
+		vfC16ModeNames[s.Mode], s.URL, s.Front, s.CloseAt, s.Jitter, s.IdleTail, s.Park, s.Ordered, s.NoBlock, s.RdSizes, s.RdPause, s.RdPauseEvery, s.UpSalt, s.DownSalt)
 	b.WriteString("  writes(size@delay[+sync]):")
 	for _, w := range s.Writes {
 		fmt.Fprintf(&b, " %d@%s", w.Size, w.Delay)
@@ -224,18 +232,24 @@ func vfC16GenScn(rt *rapid.T) *vfC16Scn {
 		s.Front = rapid.SampledFrom([]string{"front.example.org", "cdn.example.org:8000"}).Draw(rt, "frontHost")
 	}
 	switch k := vfC16Pct(rt, "mode"); {
-	case k < 38:
+	case k < 36:
 		s.Mode = vfC16Graceful
-	case k < 58:
+	case k < 55:
 		s.Mode = vfC16InFlight
-	case k < 78:
+	case k < 74:
 		s.Mode = vfC16Concurrent
-	case k < 82:
+	case k < 78:
 		s.Mode = vfC16AtStart
-	case k < 91:
+	case k < 86:
 		s.Mode = vfC16BackResume
-	default:
+	case k < 93:
 		s.Mode = vfC16BackClose
+	default:
+		s.Mode = vfC16BackCloseUnread
+		s.NoBlock = vfC16Pct(rt, "noBlock") < 30
+		if vfC16Race && !s.NoBlock {
+			s.NoBlock, s.Forced = true, true
+		}
 	}
 
 	// reader
@@ -274,7 +288,7 @@ func vfC16GenScn(rt *rapid.T) *vfC16Scn {
 		s.RdPause = time.Duration(rapid.IntRange(1, 20).Draw(rt, "rdpauseMs")) * time.Millisecond
 	}
 
-	if s.Mode == vfC16BackResume || s.Mode == vfC16BackClose {
+	if s.Mode == vfC16BackResume || s.Mode == vfC16BackClose || s.Mode == vfC16BackCloseUnread {
 		// Back-pressure: more than maxChanBacklog non-empty answers in a row
 		// while nobody reads block the worker; more than maxChanBacklog writes
 		// then block the writer.
@@ -290,6 +304,9 @@ func vfC16GenScn(rt *rapid.T) *vfC16Scn {
 		// full read queue, then more writes than the write queue can hold.
 		n1 := rapid.IntRange(1, 6).Draw(rt, "bpWrites1")
 		n2 := rapid.IntRange(20, 40).Draw(rt, "bpWrites2")
+		if s.NoBlock {
+			n2 = 0 // at most 6 writes: they fit into the write queue, only the worker parks
+		}
 		gap := time.Duration(rapid.IntRange(15, 40).Draw(rt, "bpGapMs")) * time.Millisecond
 		for i := 0; i < n1+n2; i++ {
 			w := vfC16W{Size: rapid.IntRange(1, 3000).Draw(rt, "bpWsize")}
@@ -497,7 +514,7 @@ func (r *vfC16Run) bounded(what string, fn func()) (returned bool) {
 func (r *vfC16Run) resumeReader() { r.resumeOnce.Do(func() { close(r.resume) }) }
 
 func (r *vfC16Run) parked() bool {
-	return r.scn.Mode == vfC16BackResume || r.scn.Mode == vfC16BackClose
+	return r.scn.Mode == vfC16BackResume || r.scn.Mode == vfC16BackClose || r.scn.Mode == vfC16BackCloseUnread
 }
 
 func (r *vfC16Run) reader() {
@@ -782,23 +799,30 @@ func (r *vfC16Run) run() {
 			if r.waitWriter("after the reader resumed") {
 				r.caughtUp("all writes returned")
 			}
-		case vfC16BackClose:
+		case vfC16BackClose, vfC16BackCloseUnread:
 			time.Sleep(scn.Park)
 			r.event("parked state: %d requests, writer inside Write for %s", r.srv.Count(), r.writeBusy())
 			r.noteBlocked()
+			if scn.NoBlock {
+				r.waitWriter("before Close") // the few writes fit into the queue
+			}
 		}
 		if r.failed() {
 			return
 		}
 		r.doClose()
 	}
-	r.resumeReader()
+	unread := scn.Mode == vfC16BackCloseUnread
+	if !unread {
+		r.resumeReader()
+	}
 	if r.failed() {
 		return
 	}
 
-	// A Write that was in progress when Close was called must come back.
-	if !r.waitWriterAfterClose() {
+	// A Write that was in progress when Close was called must come back (in
+	// the unread mode: although nobody is calling Read).
+	if !r.waitWriterAfterClose(unread) {
 		return
 	}
 
@@ -823,6 +847,10 @@ func (r *vfC16Run) run() {
 	}
 	if r.failed() {
 		return
+	}
+	if unread {
+		r.event("application resumes Read (queued data are drained now): %d of %d answered bytes returned so far", r.got.Load(), r.srv.Sent())
+		r.resumeReader()
 	}
 
 	// Read fails once the received data has been drained; it does not block
@@ -889,9 +917,13 @@ func (r *vfC16Run) noteBlocked() {
 		vfC16Blocked.Add(1)
 		r.classes = append(r.classes, "writer-blocked-on-backpressure")
 	}
+	// in-package gauge, used for the coverage classes only
+	if mc, ok := r.conn.(*meekConn); ok && len(mc.workerRdChan) == cap(mc.workerRdChan) {
+		r.classes = append(r.classes, "read-queue-full(worker-parked)")
+	}
 }
 
-func (r *vfC16Run) waitWriterAfterClose() bool {
+func (r *vfC16Run) waitWriterAfterClose(unread bool) bool {
 	tick := time.NewTicker(2 * time.Millisecond)
 	defer tick.Stop()
 	for {
@@ -906,6 +938,11 @@ func (r *vfC16Run) waitWriterAfterClose() bool {
 		if ws := r.writeStart.Load(); ws != 0 {
 			since := r.now() - r.closeRetT
 			if since > vfC16Bound() && r.now()-time.Duration(ws) > vfC16Bound() {
+				if unread {
+					r.fail("c16-close-ignored-under-backpressure", "a Write that was blocked on the full write queue when Close was called was still blocked %s after Close returned "+
+						"(the application is not calling Read: %d answered bytes, %d returned; %d requests so far)", since, r.srv.Sent(), r.got.Load(), r.srv.Count())
+					return false
+				}
 				r.fail("c16-write-wedged-after-close", "a Write that was in progress when Close was called was still blocked %s after Close returned although Read keeps draining", since)
 				return false
 			}
@@ -1231,7 +1268,8 @@ func vfC16Property(t *testing.T, unit string) {
 	c.Rule(unit + ": each rapid case runs 2-5 independent meek_lite connections concurrently; one evaluation = one connection scenario " +
 		"(write sizes 1..3*65536 incl. 65535/65536/65537, bursts, oversized write followed by small ones; delays 0-3 ms and idle gaps > 100 ms; " +
 		"per-request response plan: size 0/partial/65536, hold time, Content-Length/chunked/Connection: close; reader buffer sizes and pauses; front on/off; " +
-		"close mode: graceful, right after the last Write, concurrent with a Write, at start, with writer and worker blocked by back-pressure); " +
+		"close mode: graceful, right after the last Write, concurrent with a Write, at start, with writer and worker blocked by back-pressure " +
+		"(reader resumes before Close / drains after Close / the application does not call Read until the Write in progress has returned and a later Write has failed)); " +
 		"non-trivial = a write > 65536, or >= 3 writes merged into one request body, or Close while data was in flight; fingerprint = scenario")
 	c.Assume("Go's net/http server and client transport over net.Pipe are trusted (the recording server is harness code)")
 	c.Assume("schedules are sampled by the Go scheduler and real timers; a failing schedule may not replay, the history is printed instead")
@@ -1275,6 +1313,9 @@ func vfC16Property(t *testing.T, unit string) {
 			if vfC16Race && (scn.Mode == vfC16Concurrent || scn.Mode == vfC16AtStart) {
 				scn.Ordered = true
 				c.Excluded(vfC16RaceExcl, 1)
+			}
+			if scn.Forced {
+				c.Excluded(vfC16RaceExcl, 1) // race build: only the worker is parked, no Write overlaps Close
 			}
 			if vfC16Race && scn.Mode == vfC16BackClose {
 				scn.Mode = vfC16BackResume
@@ -1375,71 +1416,4 @@ func TestVerifC16Stream(t *testing.T) {
 		name = "stream(-race)"
 	}
 	vfC16Property(t, name)
-}
-
-// TestVerifC16ObservationCloseUnderBackpressure is NOT a check and is not
-// registered as a unit (it only logs; run it by hand with VERIF_C16_OBS=1).
-// It documents a behaviour next to the property: while nobody calls Read, a
-// Write that is blocked by back-pressure when Close is called stays blocked
-// (the worker is parked in `workerRdChan <- rdBuf`, which does not look at
-// workerCloseChan).  C16 only demands "Read fails after the received data has
-// been drained", and its scenarios always keep draining; see notes/C16.md.
-func TestVerifC16ObservationCloseUnderBackpressure(t *testing.T) {
-	if os.Getenv("VERIF_C16_OBS") == "" {
-		t.Skip("observation only; set VERIF_C16_OBS=1")
-	}
-	var plan []refmeek.Resp
-	for i := 0; i < 40; i++ {
-		plan = append(plan, refmeek.Resp{Size: 100})
-	}
-	srv := refmeek.New(plan, 1)
-	defer srv.Close()
-	cf, _ := (&Transport{}).ClientFactory("")
-	args := pt.Args{}
-	args.Add(urlArg, "http://meek.example.com/")
-	parsed, err := cf.ParseArgs(&args)
-	if err != nil {
-		t.Fatal(err)
-	}
-	conn, err := cf.Dial("tcp", "x:1", base.DialFunc(srv.Dial), parsed)
-	if err != nil {
-		t.Fatal(err)
-	}
-	time.Sleep(200 * time.Millisecond) // worker fills the read queue and parks
-	wrote := make(chan int, 1)
-	go func() {
-		n := 0
-		for i := 0; i < 40; i++ {
-			if _, err := conn.Write([]byte{byte(i)}); err != nil {
-				break
-			}
-			n++
-		}
-		wrote <- n
-	}()
-	time.Sleep(200 * time.Millisecond) // writer fills the write queue and parks
-	t.Logf("before Close: %d requests", srv.Count())
-	_ = conn.Close()
-	select {
-	case n := <-wrote:
-		t.Logf("writer returned after %d successful writes", n)
-	case <-time.After(3 * time.Second):
-		t.Logf("OBSERVATION: 3 s after Close the Write in progress is still blocked (nobody reads); requests so far %d", srv.Count())
-	}
-	buf := make([]byte, 4096)
-	total := 0
-	for {
-		n, err := conn.Read(buf)
-		total += n
-		if err != nil {
-			t.Logf("Read drained %d bytes, then failed with %v", total, err)
-			break
-		}
-	}
-	select {
-	case n := <-wrote:
-		t.Logf("after Read drained the queue the writer returned (%d successful writes)", n)
-	case <-time.After(3 * time.Second):
-		t.Logf("OBSERVATION: writer still blocked after draining")
-	}
 }
